@@ -597,7 +597,7 @@ def close_merge_rules(ctx, ev):
     R.rule("C10-D3b merge re-adds every pair", 3, "every non-empty key of an input cache is re-added with its own value through add_cache_slot")
     mf = repo.func(MOD, "CachePartition.merge_single_cache_file")
     mq = ctx.fq(mf)
-    generic.loops_run_to_end(ctx, "C10-D3f every pair of an input is visited", mf, {"add_cache_slot"}, "(URI, payload) pairs of the input cache")
+    generic.loops_run_to_end(ctx, "C10-D3f every pair of an input is visited", mf, {"add_cache_slot"}, "(URI, payload) pairs of the input cache", floor=0)
     generic.loops_run_to_end(ctx, "C10-D3f every pair of an input is visited", repo.func(MOD, "CacheMerge.merge_cache_files"), {"merge_single_cache_file", "add_cache_slot"},
                              "input cache files")
     generic.loops_run_to_end(ctx, "C10-D3f every pair of an input is visited", repo.func(MOD, "CacheFromPayloads.fill_cache_from_payloads"), {"add_cache_slot"},
